@@ -248,6 +248,9 @@ func (c *SpecCtx) intArg(x ast.Expr) T {
 		k, _ := strconv.ParseInt(t.S, 10, 64)
 		return IntLit(k)
 	}
+	if t.So == "AnyLit" {
+		return c.e.freshConst(t.S, SInt)
+	}
 	if t.So.IsBV() {
 		r := &Run{e: c.e}
 		if v.T != nil {
@@ -288,6 +291,9 @@ func (c *SpecCtx) coerceTo(v SV, so Sort) T {
 	if t.So == "NilLit" {
 		return NilOf(so)
 	}
+	if t.So == "AnyLit" {
+		return c.e.freshConst(t.S, so) // an arbitrary value of whatever sort the context expects
+	}
 	c.e.fail("spec: sort mismatch %s vs %s (%s)", t.So, so, t.S)
 	return c.e.freshConst("bad", so)
 }
@@ -302,9 +308,16 @@ func (c *SpecCtx) unify(a, b SV) (T, T, types.Type) {
 	if !bok {
 		bt = c.coerceScalar(b)
 	}
-	isLit := func(t T) bool { return t.So == "IntLit" || t.So == "NilLit" }
+	isLit := func(t T) bool { return t.So == "IntLit" || t.So == "NilLit" || t.So == "AnyLit" }
 	switch {
 	case isLit(at) && isLit(bt):
+		if at.So == "AnyLit" || bt.So == "AnyLit" {
+			so := SAny
+			if at.So == "IntLit" || bt.So == "IntLit" {
+				so = SInt
+			}
+			return c.coerceTo(SV{V: at}, so), c.coerceTo(SV{V: bt}, so), nil
+		}
 		if at.So == "IntLit" {
 			return c.coerceTo(SV{V: at}, SInt), c.coerceTo(SV{V: bt}, SInt), nil
 		}
@@ -561,6 +574,7 @@ func (c *SpecCtx) selector(n *ast.SelectorExpr) SV {
 		if _, isStruct := f.Type().Underlying().(*types.Struct); isStruct && isObjectStruct(f.Type()) {
 			nr := e.nestedRef(reg, base)
 			e.nested[nr.S] = &NestedInfo{Owner: key, Field: f.Name(), Base: base, Typ: f.Type()}
+			(&Run{e: e}).nestedDistinct(c.st, nr)
 			return SV{V: nr, T: types.NewPointer(f.Type())}
 		}
 		v := e.readLoc(c.st, reg, f.Type(), base)
@@ -921,6 +935,10 @@ func (c *SpecCtx) call(n *ast.CallExpr) SV {
 			return SV{V: App(it.ML.ksort, it.RKey, c.intArg(n.Args[1])), T: it.ML.mt.Key()}
 		}
 		return SV{V: App(SInt, it.RIdx, c.coerceTo(c.eval(n.Args[1]), it.ML.ksort)), T: types.Typ[types.Int]}
+	case "condlock":
+		// condlock(c): the Locker (as a lock identity) of a *sync.Cond
+		cv := c.coerceTo(c.eval(n.Args[0]), SRef)
+		return SV{V: e.condLocker(c.st, cv)}
 	case "heldcond":
 		// heldcond(cond): the Locker of this *sync.Cond is in the lockset
 		cv := c.coerceTo(c.eval(n.Args[0]), SRef)
@@ -930,6 +948,12 @@ func (c *SpecCtx) call(n *ast.CallExpr) SV {
 			ds = append(ds, Eq(l.Key, key))
 		}
 		return SV{V: Or(ds...)}
+	case "calledsince":
+		// calledsince("(*T).M"): that function (with a contract) was called after the latest channel receive on this path
+		if _, ok := c.st.Ghost["called:"+c.strArg(n.Args[0])]; ok {
+			return SV{V: True}
+		}
+		return SV{V: False}
 	case "icalls":
 		// icalls("(Iface).Method"): calls of that interface method so far on this path (since the last loop cut: a lower bound before it)
 		name := c.strArg(n.Args[0])
@@ -944,7 +968,8 @@ func (c *SpecCtx) call(n *ast.CallExpr) SV {
 		if v, ok := c.st.Ghost["ires:"+name+":"+i.S]; ok {
 			return SV{V: v}
 		}
-		return SV{V: e.freshConst("noicall", SAny)}
+		// not called on this path: an arbitrary placeholder that adapts to the expected sort (clauses must guard it)
+		return SV{V: T{"noicall", "AnyLit"}}
 	case "atentry":
 		// atentry(N, x): value of local x when loop N of this function was entered (on this path)
 		if c.fr == nil {
@@ -1062,7 +1087,7 @@ func (c *SpecCtx) call(n *ast.CallExpr) SV {
 		if !e.bv {
 			return SV{V: c.intArg(n.Args[0]), T: ty}
 		}
-		if t.So == "IntLit" {
+		if t.So == "IntLit" || t.So == "AnyLit" {
 			return SV{V: c.coerceTo(v, BV(w)), T: ty}
 		}
 		if t.So.IsBV() {
@@ -1250,6 +1275,10 @@ func (c *SpecCtx) held(x ast.Expr, kind string) T {
 	key, ok := v.V.(T)
 	if !ok {
 		return False
+	}
+	if v.T != nil && v.T.String() == "*sync.Cond" {
+		// a cond used as a lock class stands for its Locker
+		key = c.e.condLocker(c.st, key)
 	}
 	var ds []T
 	for _, l := range c.st.Locks {
